@@ -46,7 +46,9 @@ Section Gen.
   Variable N : evk -> nat -> Prop.          (* the events that are harmless for R *)
   Hypothesis same_refl : forall w, R w w.
   Hypothesis same_trans : forall a b c, R a b -> R b c -> R a c.
-  Hypothesis same_frame : forall w w', w_trace w' = w_trace w -> R w w'.
+  Variable P : nat -> Prop.                 (* the positions whose retry ledger R does not read *)
+  Hypothesis same_frame : forall w w', w_trace w' = w_trace w -> w_retry w' = w_retry w -> R w w'.
+  Hypothesis same_put : forall w q r, P q -> R w (put_rstate w q r).
   Hypothesis same_emit : forall w k q o aux, N k q -> R w (emit w k q o aux).
   Hypothesis same_stamp : forall w c, R w (stamp w c).
   Hypothesis N_plain : forall k q, plain_kind k = true -> N k q.
@@ -252,14 +254,14 @@ Qed.
 Lemma hedge_loop_quiet cfg q total : forall fuel c k started w, R w (snd (fst (hedge_loop fuel cfg q total c k started w))).
 Proof.
   induction fuel as [|fuel IH]; intros c k started w; cbn [hedge_loop].
-  - cbn [fst snd]. apply same_frame. reflexivity.
+  - cbn [fst snd]. apply same_frame; reflexivity.
   - pose proof (same_hedge_start q total c k w) as S6. set (w6 := hedge_start q total c k w) in *.
     match goal with |- context [advance ?f w6 ?t ?i ?a] => pose proof (same_advance f w6 t i a) as S7; destruct (advance f w6 t i a) as [ii w7] end.
     cbn [snd] in S7. assert (S07 : R w w7) by (eapply same_trans; eassumption).
     destruct (is_canceled w7 c); [exact S07|].
     destruct (hs_acc (w_hs w7)) as [[idx out]|].
     + cbn [fst snd]. eapply same_trans; [exact S07|]. eapply same_trans; [|apply same_refresh_bg].
-      eapply same_trans; [|apply same_cancel_others]. unfold clear_acc. apply same_frame. reflexivity.
+      eapply same_trans; [|apply same_cancel_others]. unfold clear_acc. apply same_frame; reflexivity.
     + match goal with |- context [if ?c then Some _ else None] => destruct c end; [|cbn [fst snd]; eapply same_trans; [exact S07|apply same_frame; reflexivity]].
       specialize (IH c (S k) (started ++ [(length (w_copies w), length (w_scopes w))]) w7).
       destruct (hedge_loop fuel cfg q total c (S k) _ w7) as [[r8 w8] ts]. cbn [fst snd] in *. eapply same_trans; eassumption.
@@ -273,13 +275,13 @@ Proof.
   eapply same_trans; eassumption.
 Qed.
 
-Lemma same_retry_on_failure q cfg c r w : N KPolFailure q -> N KAbort q -> N KRetriesExceeded q -> R w (snd (retry_on_failure cfg q c r w)).
+Lemma same_retry_on_failure q cfg c r w : P q -> N KPolFailure q -> N KAbort q -> N KRetriesExceeded q -> R w (snd (retry_on_failure cfg q c r w)).
 Proof.
-  intros Hpf Hab Hex. unfold retry_on_failure.
+  intros Hp Hpf Hab Hex. unfold retry_on_failure.
   set (w0 := pause (ev_with_result w c KPolFailure q r) (r_lsn_dur cfg)).
   assert (S0 : R w w0) by (eapply same_trans; [apply same_ev; exact Hpf|apply same_pause]).
   match goal with |- context [put_rstate w0 q ?rs] => set (w1 := put_rstate w0 q rs) end.
-  assert (S1 : R w w1) by (eapply same_trans; [exact S0|apply same_frame; reflexivity]).
+  assert (S1 : R w w1) by (eapply same_trans; [exact S0|apply same_put; exact Hp]).
   set (ab := is_abortable (r_abort cfg) (pr_out r)).
   set (w2 := if ab then ev_with_result w1 c KAbort q r else w1).
   assert (S2 : R w w2) by (subst w2; destruct ab; [eapply same_trans; [exact S1|apply same_ev; exact Hab]|exact S1]).
@@ -290,11 +292,11 @@ Proof.
 Qed.
 
 (* a retry policy at another position *)
-Lemma retry_loop_quiet q cfg inner : N KRetryScheduled q -> N KRetry q -> N KPolFailure q -> N KPolSuccess q -> N KAbort q -> N KRetriesExceeded q -> quiet inner ->
+Lemma retry_loop_quiet q cfg inner : P q -> N KRetryScheduled q -> N KRetry q -> N KPolFailure q -> N KPolSuccess q -> N KAbort q -> N KRetriesExceeded q -> quiet inner ->
   forall fuel c w, R w (snd (fst (retry_loop fuel cfg q inner c w))).
 Proof.
-  intros Hq1 Hq2 Hpf Hps Hab Hex Hi. induction fuel as [|fuel IH]; intros c w; cbn [retry_loop].
-  - cbn [fst snd]. apply same_frame. reflexivity.
+  intros Hp Hq1 Hq2 Hpf Hps Hab Hex Hi. induction fuel as [|fuel IH]; intros c w; cbn [retry_loop].
+  - cbn [fst snd]. apply same_frame; reflexivity.
   - pose proof (Hi c w) as S1. destruct (inner c w) as [r w1]. cbn [snd] in S1.
     destruct (is_canceled w1 c); [exact S1|]. destruct (rs_exceeded (get_rstate w1 q)); [exact S1|].
     assert (S2 : R w1 (snd (if is_failure (r_fpol cfg) (pr_out r) then retry_on_failure cfg q c (with_failure r) w1
@@ -311,7 +313,7 @@ Proof.
     destruct (is_canceled w5 c); [exact S05|].
     match goal with |- context [retry_loop fuel cfg q inner c ?w9] => set (w9' := w9) end.
     assert (S9 : R w w9').
-    { subst w9'. eapply same_trans; [exact S05|]. eapply same_trans; [|apply same_ev; exact Hq2]. apply same_frame. reflexivity. }
+    { subst w9'. eapply same_trans; [exact S05|]. eapply same_trans; [|apply same_ev; exact Hq2]. apply same_frame; reflexivity. }
     pose proof (IH c w9') as IH9. destruct (retry_loop fuel cfg q inner c w9') as [[rr ww] n]. cbn [fst snd] in *. eapply same_trans; eassumption.
 Qed.
 
@@ -330,10 +332,12 @@ Lemma s_stamp pos w c : same pos w (stamp w c).
 Proof. unfold same, stamp. destruct (w_trace w) as [|e t] eqn:E; [rewrite E; reflexivity|]. cbn [w_trace set_trace st]. reflexivity. Qed.
 Lemma s_plain pos k q : plain_kind k = true -> Nn pos k q. Proof. intros H. left. apply plain_not_retry, H. Qed.
 Lemma s_kind pos k q : retry_kind k = false -> Nn pos k q. Proof. left. assumption. Qed.
-#[local] Hint Resolve s_refl s_trans s_frame s_emit s_stamp s_plain : samedb.
+Lemma s_frame2 pos w w' : w_trace w' = w_trace w -> w_retry w' = w_retry w -> same pos w w'. Proof. intros H _. apply s_frame, H. Qed.
+Lemma s_put pos w q r : True -> same pos w (put_rstate w q r). Proof. intros _. apply s_frame. reflexivity. Qed.
+#[local] Hint Resolve s_refl s_trans s_frame2 s_put s_emit s_stamp s_plain : samedb.
 #[local] Hint Extern 1 (Nn _ _ _) => (apply s_kind; reflexivity) : samedb.
 
-Ltac inst_same pos lem := first [eapply lem with (N := Nn pos) | eapply lem]; eauto with samedb.
+Ltac inst_same pos lem := first [eapply lem with (N := Nn pos) (P := fun _ => True) | eapply lem with (N := Nn pos) | eapply lem]; eauto with samedb.
 
 (* everything below position [start] leaves the automaton of every position above it alone *)
 Theorem compose_quiet fuel stack : forall pos start total, (pos < start)%nat -> quiet (same pos) (compose fuel start stack total).
@@ -341,7 +345,7 @@ Proof.
   induction stack as [|p rest IH]; intros pos start total Hlt; cbn [compose].
   - inst_same pos fn_layer_quiet.
   - specialize (IH pos (S start) total ltac:(lia)). destruct p as [rc|bi|li lmw|ki kmw|lim|fc|ci cc|hc]; cbn [apply_policy].
-    + intros c w. eapply retry_loop_quiet with (N := Nn pos); eauto with samedb; right; lia.
+    + intros c w. eapply retry_loop_quiet with (N := Nn pos) (P := fun _ => True); eauto with samedb; try exact I; right; lia.
     + inst_same pos breaker_layer_quiet.
     + inst_same pos limiter_layer_quiet.
     + inst_same pos bulkhead_layer_quiet.
@@ -364,10 +368,12 @@ Proof. intros H HJ pos. rewrite (s_emit pos w k q o aux (or_introl H)). apply HJ
 Lemma j_stamp w c : Jrel w (stamp w c).
 Proof. intros HJ pos. rewrite (s_stamp pos w c). apply HJ. Qed.
 Lemma j_plain k q : plain_kind k = true -> Nj k q. Proof. apply plain_not_retry. Qed.
-#[local] Hint Resolve j_refl j_trans j_frame j_emit j_stamp j_plain : jdb.
+Lemma j_frame2 w w' : w_trace w' = w_trace w -> w_retry w' = w_retry w -> Jrel w w'. Proof. intros H _. apply j_frame, H. Qed.
+Lemma j_put w q r : True -> Jrel w (put_rstate w q r). Proof. intros _. apply j_frame. reflexivity. Qed.
+#[local] Hint Resolve j_refl j_trans j_frame2 j_put j_emit j_stamp j_plain : jdb.
 #[local] Hint Extern 1 (Nj _ _) => reflexivity : jdb.
 
-Ltac inst_j lem := first [eapply lem with (N := Nj) | eapply lem]; eauto with jdb.
+Ltac inst_j lem := first [eapply lem with (N := Nj) (P := fun _ => True) | eapply lem with (N := Nj) | eapply lem]; eauto with jdb.
 
 (* the retry policy at position q: its own automaton goes decided -> started, everything inside leaves it alone *)
 Lemma retry_loop_J q cfg inner : quiet Jrel inner -> quiet (same q) inner ->
@@ -380,7 +386,7 @@ Proof.
     assert (J2 : J (snd (if is_failure (r_fpol cfg) (pr_out r) then retry_on_failure cfg q c (with_failure r) w1
                          else (with_done r true true, ev_with_result w1 c KPolSuccess q (with_done r true true))))).
     { destruct (is_failure _ _).
-      - assert (X : Jrel w1 (snd (retry_on_failure cfg q c (with_failure r) w1))) by (eapply same_retry_on_failure with (N := Nj); eauto with jdb).
+      - assert (X : Jrel w1 (snd (retry_on_failure cfg q c (with_failure r) w1))) by (eapply same_retry_on_failure with (N := Nj) (P := fun _ => True); eauto with jdb; exact I).
         exact (X J1).
       - cbn [snd]. assert (X : Jrel w1 (ev_with_result w1 c KPolSuccess q (with_done r true true))) by (eapply same_ev with (N := Nj); eauto with jdb; reflexivity).
         exact (X J1). }
@@ -442,7 +448,7 @@ Proof.
   assert (J0 : J (fresh_world now ext key b l k c script)).
   { assert (J00 : J (fresh_world0 now ext key b l k c script)) by (intros pos; cbn; discriminate).
     unfold fresh_world. destruct ext as [[t e]|]; [|exact J00]. destruct (t <=? now); [|exact J00].
-    apply (same_fire_ext Jrel j_refl j_trans j_frame); exact J00. }
+    apply (same_fire_ext Jrel j_refl j_trans j_frame2); exact J00. }
   change (J (drain (snd (execute fuel stack (fresh_world now ext key b l k c script))))). apply J_drain.
   unfold execute.
   pose proof (compose_J fuel stack 0 (length stack) 0%nat _ J0) as J1.
